@@ -18,6 +18,32 @@ fn writer(tier: &str) -> Vec<String> {
             }
         }
     }
+    // binding runs: the same judge applied to what the real sinks put on the spy channel / real sockets
+    for cap in ["0", "1", "2", "4", "8"] {
+        v.push(format!("sock-buf:sink=spy:cap={}:depth={}", cap, if thorough { 5 } else { 4 }));
+    }
+    for ctor in ["0", "1"] {
+        v.push(format!("sock-buf:sink=spy:depth={}:ctor={}", if thorough { 3 } else { 2 }, ctor));
+    }
+    for sink in ["udp", "unix"] {
+        v.push(format!("sock-buf:sink={}:cap=8:depth={}", sink, if thorough { 4 } else { 3 }));
+        v.push(format!("sock-buf:sink={}:depth=2", sink));
+    }
+    v.push(format!("sock-buf:sink=unix:cap=4:faults=1:depth={}", if thorough { 7 } else { 5 }));
+    v.push(format!("sock-buf:sink=unix:cap=8:faults=1:depth={}", if thorough { 6 } else { 5 }));
+    for (cap, q) in [(4, 1), (3, 2), (8, 1)] {
+        v.push(format!("spyq:cap={}:q={}:depth={}", cap, q, if thorough { 6 } else { 5 }));
+    }
+    // flush through the client and through a queuing wrapper (C06)
+    for cap in [9, 16] {
+        v.push(format!("clientflush:cap={}:depth={}", cap, if thorough { 6 } else { 5 }));
+    }
+    for prog in ["EEWF", "EEF", "EFEF", "EEWFEF", "EWFEWF", "EEEF"] {
+        for cap in [6, 16] {
+            v.push(format!("qflush:cap={}:prog={}:P={}", cap, prog, if thorough { 4 } else { 3 }));
+        }
+        v.push(format!("qflush:cap=16:qcap=1:prog={}:P=3", prog));
+    }
     // unmerged tree: split on the first operation for parallelism
     let tree: Vec<(usize, usize)> = if thorough {
         vec![(0, 7), (1, 7), (2, 7), (3, 7), (4, 6), (5, 6), (6, 6), (8, 5)]
